@@ -236,7 +236,7 @@ pub fn gen_plan(ch: &mut Choices, mode: &str, thorough: bool) -> Plan {
         "logs/a.b.c.json" => ("logs", "a.b.c", "json"),
         "svc" => (".", "svc", "log"),
         "logs/.hidden" => ("logs", ".hidden", "log"),
-        "logs/./app.log" => ("logs/.", "app", "log"),
+        "logs/./app.log" => ("logs", "app", "log"),
         "data/out/app.ndjson" => ("data/out", "app", "ndjson"),
         other => panic!("template {other} missing from the oracle's table"),
     };
